@@ -287,8 +287,8 @@ def xh_part(run: Run):
     top = 3 if thorough else 2
     for m in range(top + 1):
         for nfc in range(top + 1):
-            if m + nfc:
-                jobs.append({"fn": "enumerate_results", "globals": {"FIX_M": m, "FIX_N": nfc}, "timeout": 300 if thorough else 100})
+            if m + nfc and m + nfc <= 5:  # (3, 3) = 216 results per path does not finish within the budget: outside the bound
+                jobs.append({"fn": "enumerate_results", "globals": {"FIX_M": m, "FIX_N": nfc}, "timeout": 600 if thorough else 100})
     nt_ = len(H.tree_cases())
     for lo in range(0, nt_, 4):
         jobs.append({"fn": "extract_tree", "globals": {"T_LO": lo, "T_HI": min(nt_, lo + 4)}, "timeout": 600})
